@@ -363,10 +363,10 @@ def resolveP (s : PStore) (x : Ctx) (profile : String) : PStore × Ctx × Except
   match cacheGet s.cache profile with
   | some (pid, k) => (s, x, .ok (pid, k))
   | none =>
-    let (row, b) := sqlSelectProfile s.db (Src.profileName profile)
-    match row with
-    | some p => ({ s with cache := cachePut s.cache profile (p.id, p.keyId) }, x.bind b, .ok (p.id, p.keyId))
-    | none => (s, x.bind b, .error .notFound)
+    let r := sqlSelectProfile s.db (Src.profileName profile)
+    match r.1 with
+    | some p => ({ s with cache := cachePut s.cache profile (p.id, p.keyId) }, x.bind r.2, .ok (p.id, p.keyId))
+    | none => (s, x.bind r.2, .error .notFound)
 
 /-- `BackendSession::update` for Insert / Replace (`perform_insert`) -/
 def update (C : Crypto) (rng : Nat → Nonce) (s : PStore) (x : Ctx) (profile : String) (kind : Kind) (ins : Bool)
@@ -383,18 +383,22 @@ def update (C : Crypto) (rng : Nat → Nonce) (s : PStore) (x : Ctx) (profile : 
     let encName := C.searchable k .name nameA
     let encTags := tags.map fun ts => ts.map (encryptTag C k)
     if ins then
-      match sqlInsertItem s.db pid kind encCat encName encValue g with
-      | (_, none, b) => (s, x.bind b, .error .duplicate)
-      | (db, some id, b) =>
-        let (db, b2) := insertTags db id (encTags.getD [])
-        ({ s with db := db }, (x.bind b).bind b2, .ok ())
+      let r := sqlInsertItem s.db pid kind encCat encName encValue g
+      let x := x.bind r.2.2
+      match r.2.1 with
+      | none => (s, x, .error .duplicate)
+      | some id =>
+        let t := insertTags r.1 id (encTags.getD [])
+        ({ s with db := t.1 }, x.bind t.2, .ok ())
     else
-      match sqlUpdateItem s.db pid kind encCat encName encValue g with
-      | (_, none, b) => (s, x.bind b, .error .notFound)
-      | (db, some id, b) =>
-        let (db, b1) := sqlDeleteTags db id
-        let (db, b2) := insertTags db id (encTags.getD [])
-        ({ s with db := db }, ((x.bind b).bind b1).bind b2, .ok ())
+      let r := sqlUpdateItem s.db pid kind encCat encName encValue g
+      let x := x.bind r.2.2
+      match r.2.1 with
+      | none => (s, x, .error .notFound)
+      | some id =>
+        let d := sqlDeleteTags r.1 id
+        let t := insertTags d.1 id (encTags.getD [])
+        ({ s with db := t.1 }, (x.bind d.2).bind t.2, .ok ())
 
 /-- `BackendSession::update` for Remove (`perform_remove`) -/
 def remove (C : Crypto) (s : PStore) (x : Ctx) (profile : String) (kind : Kind) (cat name : String) :
@@ -402,8 +406,8 @@ def remove (C : Crypto) (s : PStore) (x : Ctx) (profile : String) (kind : Kind) 
   match resolveP s x profile with
   | (s, x, .error e) => (s, x, .error e)
   | (s, x, .ok (pid, k)) =>
-    let (db, n, b) := sqlDeleteItem s.db pid kind (C.searchable k .category (Src.category cat)) (C.searchable k .name (Src.name name))
-    if n == 0 then (s, x.bind b, .error .notFound) else ({ s with db := db }, x.bind b, .ok ())
+    let r := sqlDeleteItem s.db pid kind (C.searchable k .category (Src.category cat)) (C.searchable k .name (Src.name name))
+    if r.2.1 == 0 then (s, x.bind r.2.2, .error .notFound) else ({ s with db := r.1 }, x.bind r.2.2, .ok ())
 
 def encCatOpt (C : Crypto) (k : Nat) (cat : Option String) : Option Arg :=
   cat.map fun c => C.searchable k .category (Src.category c)
@@ -414,8 +418,8 @@ def removeAll (C : Crypto) (like : Bytes → Bytes → Bool) (s : PStore) (x : C
   match resolveP s x profile with
   | (s, x, .error e) => (s, x, .error e)
   | (s, x, .ok (pid, k)) =>
-    let (db, n, b) := sqlDeleteAll like s.db pid kind (encCatOpt C k cat) (encodeFilter C k f)
-    ({ s with db := db }, x.bind b, .ok n)
+    let r := sqlDeleteAll like s.db pid kind (encCatOpt C k cat) (encodeFilter C k f)
+    ({ s with db := r.1 }, x.bind r.2.2, .ok r.2.1)
 
 /-- `count`, and the row selection of `scan` / `fetch_all` (`perform_scan`); rows under a foreign key fail to decrypt -/
 def select (C : Crypto) (like : Bytes → Bytes → Bool) (s : PStore) (x : Ctx) (profile : String) (kind : Option Kind)
@@ -423,8 +427,8 @@ def select (C : Crypto) (like : Bytes → Bytes → Bool) (s : PStore) (x : Ctx)
   match resolveP s x profile with
   | (s, x, .error e) => (s, x, .error e)
   | (s, x, .ok (pid, k)) =>
-    let (rows, b) := sqlSelect like s.db pid kind (encCatOpt C k cat) (encodeFilter C k f)
-    (s, x.bind b, .ok (k, rows))
+    let r := sqlSelect like s.db pid kind (encCatOpt C k cat) (encodeFilter C k f)
+    (s, x.bind r.2, .ok (k, r.1))
 
 /-- `fetch` -/
 def fetch (C : Crypto) (s : PStore) (x : Ctx) (profile : String) (kind : Kind) (cat name : String) :
@@ -432,8 +436,8 @@ def fetch (C : Crypto) (s : PStore) (x : Ctx) (profile : String) (kind : Kind) (
   match resolveP s x profile with
   | (s, x, .error e) => (s, x, .error e)
   | (s, x, .ok (pid, k)) =>
-    let (row, b) := sqlFetch s.db pid kind (C.searchable k .category (Src.category cat)) (C.searchable k .name (Src.name name))
-    (s, x.bind b, .ok row.isSome)
+    let r := sqlFetch s.db pid kind (C.searchable k .category (Src.category cat)) (C.searchable k .name (Src.name name))
+    (s, x.bind r.2, .ok r.1.isSome)
 
 /-- `encode_profile_key` for a new or reloaded profile key: one nonce is drawn iff there is a store key -/
 def wrapProfileKey (C : Crypto) (rng : Nat → Nonce) (sk : Option Nat) (x : Ctx) (keyId : Nat) : Arg × Ctx :=
@@ -443,15 +447,16 @@ def wrapProfileKey (C : Crypto) (rng : Nat → Nonce) (sk : Option Nat) (x : Ctx
 def createProfile (C : Crypto) (rng : Nat → Nonce) (s : PStore) (x : Ctx) (name : String) : PStore × Ctx × Except Err Unit :=
   let keyId := x.nextKey
   let x := { x with nextKey := x.nextKey + 1 }
-  let (encKey, x) := wrapProfileKey C rng s.storeKey x keyId
-  match sqlInsertProfile s.db (Src.profileName name) encKey keyId with
-  | (_, none, b) => (s, x.bind b, .error .duplicate)
-  | (db, some id, b) => ({ s with db := db, cache := cachePut s.cache name (id, keyId) }, x.bind b, .ok ())
+  let w := wrapProfileKey C rng s.storeKey x keyId
+  let r := sqlInsertProfile s.db (Src.profileName name) w.1 keyId
+  match r.2.1 with
+  | none => (s, w.2.bind r.2.2, .error .duplicate)
+  | some id => ({ s with db := r.1, cache := cachePut s.cache name (id, keyId) }, w.2.bind r.2.2, .ok ())
 
 /-- `remove_profile` (evicts the cache entry: defect D7 is repaired in the current tree) -/
 def removeProfile (s : PStore) (x : Ctx) (name : String) : PStore × Ctx × Bool :=
-  let (db, removed, b) := sqlDeleteProfile s.db (Src.profileName name)
-  ({ s with db := db, cache := s.cache.filter (·.1 != name) }, x.bind b, removed)
+  let r := sqlDeleteProfile s.db (Src.profileName name)
+  ({ s with db := r.1, cache := s.cache.filter (·.1 != name) }, x.bind r.2.2, r.2.1)
 
 /-- `set_default_profile` -/
 def setDefault (s : PStore) (x : Ctx) (name : String) : PStore × Ctx :=
@@ -468,29 +473,28 @@ def newStoreKey (m : Method) (x : Ctx) : Option Nat × Ctx :=
 def rewrapAll (C : Crypto) (rng : Nat → Nonce) (sk : Option Nat) : List PProfile → PDb → Ctx → PDb × Ctx
   | [], db, x => (db, x)
   | p :: ps, db, x =>
-    let (encKey, x) := wrapProfileKey C rng sk x p.keyId
-    let (db, b) := sqlUpdateProfileKey db encKey p.id
-    rewrapAll C rng sk ps db (x.bind b)
+    let w := wrapProfileKey C rng sk x p.keyId
+    let r := sqlUpdateProfileKey db w.1 p.id
+    rewrapAll C rng sk ps r.1 (w.2.bind r.2)
 
 /-- `rekey` -/
 def rekey (C : Crypto) (rng : Nat → Nonce) (s : PStore) (x : Ctx) (m : Method) : PStore × Ctx :=
-  let (sk, x) := newStoreKey m x
-  let (db, x) := rewrapAll C rng sk s.db.profiles s.db x
+  let n := newStoreKey m x
+  let r := rewrapAll C rng n.1 s.db.profiles s.db n.2
   let ref := Src.metaStr m.uri
-  ({ db := setConfig db "key" ref, storeKey := sk, cache := [] }, x.bind [ref])
+  ({ db := setConfig r.1 "key" ref, storeKey := n.1, cache := [] }, r.2.bind [ref])
 
 /-- `provision` of a new file (`init_keys` + `init_db`) -/
 def provision (C : Crypto) (rng : Nat → Nonce) (x : Ctx) (m : Method) (profile : String) : PStore × Ctx :=
-  let (sk, x) := newStoreKey m x
-  let keyId := x.nextKey
-  let x := { x with nextKey := x.nextKey + 1 }
-  let (encKey, x) := wrapProfileKey C rng sk x keyId
+  let n := newStoreKey m x
+  let keyId := n.2.nextKey
+  let w := wrapProfileKey C rng n.1 { n.2 with nextKey := n.2.nextKey + 1 } keyId
   let pn := Src.profileName profile
   let ref := Src.metaStr m.uri
-  let db : PDb := { profiles := [⟨1, pn, encKey, keyId⟩],
+  let db : PDb := { profiles := [⟨1, pn, w.1, keyId⟩],
                     config := [("default_profile", pn), ("key", ref), ("version", Src.metaStr "1")] }
   -- bound: ?1 profile name, ?2 key reference, ?3 wrapped profile key; then `SELECT id FROM profiles WHERE name = ?1`
-  ({ db := db, storeKey := sk, cache := [(profile, 1, keyId)] }, x.bind [pn, ref, encKey, pn])
+  ({ db := db, storeKey := n.1, cache := [(profile, 1, keyId)] }, w.2.bind [pn, ref, w.1, pn])
 
 def defaultProfile (db : PDb) : String :=
   match db.config.find? (·.1 == "default_profile") with
@@ -500,10 +504,10 @@ def defaultProfile (db : PDb) : String :=
 /-- `open` of the existing file with the right key: a fresh cache holding the default profile -/
 def reopen (s : PStore) (x : Ctx) : PStore × Ctx :=
   let name := defaultProfile s.db
-  let (row, b) := sqlSelectProfile s.db (Src.profileName name)
-  match row with
-  | some p => ({ s with cache := [(name, p.id, p.keyId)] }, x.bind b)
-  | none => ({ s with cache := [] }, x.bind b)
+  let r := sqlSelectProfile s.db (Src.profileName name)
+  match r.1 with
+  | some p => ({ s with cache := [(name, p.id, p.keyId)] }, x.bind r.2)
+  | none => ({ s with cache := [] }, x.bind r.2)
 
 /-- `insert_key`: the KMS record is an ordinary `update(Kms, Insert, "cryptokey", name, CBOR(KeyParams), tags)` -/
 def cborHead (major : Nat) (n : Nat) : Bytes :=
@@ -550,8 +554,8 @@ def copyProfiles (C : Crypto) (rng : Nat → Nonce) (like : Bytes → Bytes → 
     | (src, x, .ok (k, rows)) =>
       if rows.any (·.keyId != k) then (src, t, x, .error .encryption) else
       -- target: create_profile (Duplicate is ignored), count, import
-      let (t, x, _) := createProfile C rng t x pname
-      match select C like t x pname none none none with
+      let c := createProfile C rng t x pname
+      match select C like c.1 c.2.1 pname none none none with
       | (t, x, .error e) => (src, t, x, .error e)
       | (t, x, .ok (_, existing)) =>
         if !existing.isEmpty then (src, t, x, .error .input) else
@@ -564,8 +568,8 @@ def copyTo (C : Crypto) (rng : Nat → Nonce) (like : Bytes → Bytes → Bool) 
     PStore × PStore × Ctx × Except Err Unit :=
   -- get_default_profile binds the config name; list_profiles binds nothing
   let x := x.bind [Src.metaStr "default_profile"]
-  let (t, x) := provision C rng x m (defaultProfile src.db)
-  copyProfiles C rng like src.db.profiles src t x
+  let t := provision C rng x m (defaultProfile src.db)
+  copyProfiles C rng like src.db.profiles src t.1 t.2
 
 /-! ### Histories -/
 
